@@ -383,7 +383,7 @@ def plan_C15(prop, tier):
 
 
 def plan_C07(prop, tier):
-    fl = ("NM",) if tier == "quick" else ("NM", "TM", "MO")
+    fl = ("NM", "TM") if tier == "quick" else ("NM", "TM", "MO")
     jobs = w2_jobs(tier, fl, W2_PAIRS[tier], W2_ACFGS[tier], 1 if tier == "thorough" else 0)
     return run_svmc(prop, tier, jobs)
 
